@@ -35,6 +35,14 @@ Oracle clauses (each traced to a phrase of the property statement):
       every score entry; ids, allocators and the model are kept per server:
       a second Server object 'c17b' with its own allocators)
                                                      -> wrong-server:<op>, own-server:<kind>
+  L7  sub-bus views (family 'subbus'): for parents of 1-4 channels of both
+      rates EVERY view sub_bus/new_from(offset in 0..parent+2, channels in
+      1..parent+2) is used by clear/setn/getn/set and as the bus of
+      mapn/mapan/a map symbol: a view inside the parent's block works and
+      names index + offset; any other view is refused (exception, nothing
+      emitted) or its command names only indices of the parent's live block
+      (a neighbouring bus of the client does not make an index legal)
+                                                     -> sub-bus-outside-parent
 Don't-cares: time tags; message-vs-bundle packaging outside bind(); the value
 sent by release(); int-vs-float of numeric values; order of the /b_free
 commands of free_all and of the /b_alloc commands of new_consecutive; a second
@@ -2320,7 +2328,9 @@ def main(ctx):
         'cheby/copy_data/prepare_partconv), free, free_all (default, explicit '
         'and second server), Control/Audio '
         'bus allocation (1-3 channels, both servers), use (also through '
-        'sub_bus/new_from views), free, bind()/exit/exit-by-exception, also '
+        'sub_bus/new_from views: every (offset, channels) pair up to two '
+        'past the parent for parents of 1-4 channels), free, '
+        'bind()/exit/exit-by-exception, also '
         'one bind() nested in another) on the '
         'real objects in NRT mode: wide alphabets (all argument variants) to '
         'depth 3-5 per object family and mixed, plus a narrow life-cycle '
